@@ -7,7 +7,13 @@ use crate::passes::{DiagnosticManager, LintError, LintPass};
 pub struct CalleeSavedRegisterCheck;
 impl LintPass for CalleeSavedRegisterCheck {
     fn run(cfg: &Cfg, errors: &mut DiagnosticManager) {
-        for func in cfg.functions().values() {
+        // Visit every function once, in program order. `cfg.functions()` has one
+        // entry per *label*, so a function with several entry labels would be
+        // checked (and reported) once per label, in hash order.
+        for node in cfg {
+            let Some(func) = node.is_function_entry_with_func() else {
+                continue;
+            };
             let exit_vals = func.exit().reg_values_in();
             for reg in &Register::callee_saved_set() {
                 match exit_vals.get(&reg) {
